@@ -13,12 +13,16 @@
      v_dedup : recvAndUnpack adds an unknown (global, attribute) once per sync (fixed) / once per publishing
                neighbour, because only the old part of the index set is searched (as is). *)
 From Coq Require Import List NArith Bool.
+From DuneV Require Import Params_gen.
 Import ListNotations.
 Local Open Scope N_scope.
 
 Record c13_variant := C13Variant { v_rattr : bool; v_dedup : bool }.
 Definition c13_fixed := C13Variant true true.
 Definition c13_asis := C13Variant false false.
+(* the variant the CURRENT source is: both switches are re-read from indicessyncer.hh on every run (tools/params.d/C13.py);
+   Properties_C13.v proves c13_tree = c13_fixed, so reverting either repair in the source breaks that theorem *)
+Definition c13_tree := C13Variant c13_param_dup_test_remote_attr c13_param_dedup_added.
 
 (* IndexPair<G, ParallelLocalIndex<A>>: global, attribute, local number, public flag *)
 Record c13_pair := C13Pair { c13_g : N; c13_a : N; c13_l : N; c13_p : bool }.
@@ -107,7 +111,10 @@ Definition c13_same_ga (g a : N) (p : c13_pair) : bool := (c13_g p =? g) && (c13
 (* indexSet_.add(global, ParallelLocalIndex(numberer(global), myAttribute, true)) -> newIndices_.push_back *)
 Definition c13_add (v : c13_variant) (numb : N -> N) (g a : N) (added : list c13_pair) : list c13_pair :=
   if v_dedup v && existsb (c13_same_ga g a) added then added
-  else added ++ [C13Pair g a (numb g) true].
+  else added ++ [C13Pair g a (numb g) c13_param_added_public].      (* the `true` of both add sites, re-read from the source *)
+
+(* IndicesSyncer::DefaultNumberer: std::numeric_limits<size_t>::max() for every global index *)
+Definition c13_default_numberer : N -> N := fun _ => c13_param_default_local.
 
 (* for(; pos->global()==global; ++pos) if(pos->local().attribute()==myAttribute) ...
    (on [] the C++ loop would read past end(); only reachable when the last pairs of the set all carry `global`
@@ -245,3 +252,78 @@ Definition c13_sync_rank (v : c13_variant) (numb : N -> N) (w : c13_world) (rank
 Definition c13_sync (v : c13_variant) (numb : N -> N -> N) (w : c13_world) (sigma : N -> list N) : list c13_result :=
   map (fun r => c13_sync_rank v (numb r) w r (sigma r)) (map N.of_nat (seq 0 (length w))).
 Definition c13_fixed_order (w : c13_world) (r : N) : list N := c13_neighbours (c13_proc_of w r).
+
+(* ------------------------------------------------------------------ sequence numbers: isSynced()
+   ParallelIndexSet::seqNo_ is incremented by endResize(); repairLocalIndexPointers copies it into sourceSeqNo_/destSeqNo_
+   and the last statement of sync() assigns it once more; isSynced() compares (source and target are the same set here). *)
+Record c13_seqs := C13Seqs { sq_set : N; sq_src : N; sq_dst : N }.
+Definition c13_end_resize_seq (s : c13_seqs) : c13_seqs := C13Seqs (sq_set s + 1) (sq_src s) (sq_dst s).
+Definition c13_repair_seq (s : c13_seqs) : c13_seqs := C13Seqs (sq_set s) (sq_set s) (sq_set s).
+Definition c13_sync_seq (s : c13_seqs) : c13_seqs :=
+  let s1 := c13_end_resize_seq s in          (* beginResize .. endResize *)
+  let s2 := c13_repair_seq s1 in             (* repairLocalIndexPointers(globalMap_, remoteIndices_, indexSet_) *)
+  C13Seqs (sq_set s2) (sq_set s2) (sq_set s2).  (* remoteIndices_.sourceSeqNo_ = remoteIndices_.destSeqNo_ = indexSet_.seqNo() *)
+Definition c13_is_synced (s : c13_seqs) : bool := (sq_src s =? sq_set s) && (sq_dst s =? sq_set s).
+(* getModifier() declares the lists in sync at the moment it is called; a later endResize makes them stale again *)
+Definition c13_get_modifier_seq (s : c13_seqs) : c13_seqs := C13Seqs (sq_set s) (sq_set s) (sq_set s).
+
+(* ------------------------------------------------------------------ the iterator tuple, literally: three parallel lists
+   (remote index list, globalMap_ list, oldMap_ list) walked by one Iterators object; insertIntoRemoteIndexList inserts into
+   all three at the iterator position.  c13_list_insert above is the same loop on the zipped view (proved: C13_tuple_insert_refines). *)
+Definition c13_tuple := (list N * list c13_key * list bool)%type.      (* remote attributes, (global, attribute), isOld *)
+Fixpoint c13_tuple_dup_there (v : c13_variant) (key : c13_key) (ra : N) (rl : list N) (gl : list c13_key) : bool :=
+  match rl, gl with
+  | r :: rl', g :: gl' => if c13_key_eq g key
+                          then (if (if v_rattr v then r =? ra else snd g =? ra) then true else c13_tuple_dup_there v key ra rl' gl')
+                          else false
+  | _, _ => false
+  end.
+Fixpoint c13_tuple_insert (v : c13_variant) (key : c13_key) (ra : N) (rl : list N) (gl : list c13_key) (bl : list bool) : c13_tuple :=
+  match rl, gl, bl with
+  | r :: rl', g :: gl', b :: bl' =>
+      if c13_key_lt g key                                   (* while(isNotAtEnd() && globalIndexPair() < globalPair) ++iterators *)
+      then match c13_tuple_insert v key ra rl' gl' bl' with (a, b', c) => (r :: a, g :: b', b :: c) end
+      else if c13_key_eq g key
+           then (if c13_tuple_dup_there v key ra rl gl then (rl, gl, bl) else (ra :: rl, key :: gl, false :: bl))
+           else (ra :: rl, key :: gl, false :: bl)          (* iterators.insert(RemoteIndex(attribute), globalPair): old = false *)
+  | _, _, _ => (ra :: rl, key :: gl, false :: bl)           (* isAtEnd() *)
+  end.
+Definition c13_tuple_view (t : c13_tuple) : list c13_rentry := combine (snd (fst t)) (fst (fst t)).
+
+(* ------------------------------------------------------------------ RemoteIndexListModifier<T,A,true> (remoteindices.hh), literally:
+   the remote list with the parallel list glist_ of global indices; remove / insert move forward only (ascending calls) *)
+(* remove(global): while (iter_ != end_ and giter_'s value < global) ++; if giter_'s value == global, remove both. *)
+Fixpoint c13_mod_remove (g : N) (rl : list c13_rentry) (gl : list N) : list c13_rentry * list N :=
+  match rl, gl with
+  | e :: rl', x :: gl' => if x <? g then match c13_mod_remove g rl' gl' with (a, b) => (e :: a, x :: b) end
+                          else if x =? g then (rl', gl') else (rl, gl)
+  | _, _ => (rl, gl)
+  end.
+(* the harness' deletion: remove the listed globals in ascending order (one modifier walks forward; here restarted, same result) *)
+Definition c13_mod_remove_all (gs : list N) (rl : list c13_rentry) : list c13_rentry :=
+  fst (fold_left (fun st g => c13_mod_remove g (fst st) (snd st)) gs (rl, map (fun e => fst (fst e)) rl)).
+(* insert(index, global): move forward while giter_'s value < global, insert in front of the position *)
+Fixpoint c13_mod_insert (e : c13_rentry) (g : N) (rl : list c13_rentry) (gl : list N) : list c13_rentry * list N :=
+  match rl, gl with
+  | y :: rl', x :: gl' => if x <? g then match c13_mod_insert e g rl' gl' with (a, b) => (y :: a, x :: b) end
+                          else (e :: rl, g :: gl)
+  | _, _ => (e :: rl, g :: gl)
+  end.
+(* repairLocalIndexPointers() of the modifier: for every entry advance `index` while index->global() < giter's value (never back);
+   pos = position in the new index set; None = ran off the end (the C++ reads past end() there) *)
+Fixpoint c13_mod_seek (fuel : nat) (iset : list c13_pair) (g : N) (pos : nat) : option nat :=
+  match fuel with
+  | O => None
+  | S f => match nth_error iset pos with
+           | None => None
+           | Some p => if c13_g p <? g then c13_mod_seek f iset g (S pos) else Some pos
+           end
+  end.
+Fixpoint c13_mod_repair (iset : list c13_pair) (gl : list N) (pos : nat) : option (list nat) :=
+  match gl with
+  | [] => Some []
+  | g :: gl' => match c13_mod_seek (S (length iset)) iset g pos with
+                | None => None
+                | Some k => match c13_mod_repair iset gl' k with Some ks => Some (k :: ks) | None => None end
+                end
+  end.
